@@ -212,7 +212,9 @@ func (p *LiteralPolicy) IsSmallInt(c constant.Value) bool {
 	}
 	val, exact := constant.Int64Val(c)
 	if !exact {
-		return false
+		// The value does not fit int64 (a uint64 above MaxInt64).  It is outside every
+		// bounded range; only a policy that keeps the whole integer range keeps it too.
+		return p.SmallIntMin == math.MinInt64 && p.SmallIntMax == math.MaxInt64
 	}
 	return val >= p.SmallIntMin && val <= p.SmallIntMax
 }
